@@ -31,6 +31,16 @@ def all_handler_runs(ctx, fails):
                 before = fh.snapshot(t.root, with_dir_mtime=True)
                 tr = os.path.join(ctx.tmp, "trace-all-%s-%d.txt" % (sel.replace(",", "_"), linked))
                 rc, out = fh.run_cli(["--check", "--handler", sel, t.path("d")], epoch=samples.EPOCH, strace_out=tr)
+                mid = fh.snapshot(t.root, with_dir_mtime=True)
+                # the same through worker processes, with every combination of the options that are forwarded to them
+                for extra in (["-j2"], ["-v", "-j3"], ["-v"]):
+                    rcx, outx = fh.run_cli(["--check"] + extra + ["--handler", sel, t.path("d")], epoch=samples.EPOCH, timeout=120)
+                    dx = fh.snap_equal(mid, fh.snapshot(t.root, with_dir_mtime=True))
+                    if dx:
+                        fails.append((label + " " + " ".join(extra), "check-modified-tree", "--check %s --handler %s changed the tree: %s" % (" ".join(extra), sel, "; ".join(dx[:4]))))
+                    sx = fh.parse_summary(outx)
+                    if rcx != rc or (sx is not None and fh.parse_summary(out) is not None and any(sx[k] != fh.parse_summary(out)[k] for k in ("processed", "replaced", "rewritten", "unsupported", "errors"))):
+                        fails.append((label + " " + " ".join(extra), "check-parallel-differs", "--check %s --handler %s: exit %d %s, plain --check: exit %d %s" % (" ".join(extra), sel, rcx, sx, rc, fh.parse_summary(out))))
                 after = fh.snapshot(t.root, with_dir_mtime=True)
                 ops, _ = fh.parse_strace(tr, t.root)
                 s = fh.parse_summary(out)
